@@ -28,9 +28,10 @@ import (
 	"pgregory.net/rapid"
 
 	"verifharness/hx"
+	"verifharness/wire"
 )
 
-func TestMain(m *testing.M) { hx.Main(m) }
+func TestMain(m *testing.M) { wire.Init(true); hx.Main(m) }
 
 // ---------------------------------------------------------------------------
 // reference renderer, written from the field documentation in logger.go and
@@ -592,6 +593,7 @@ func newProxy(w *countingWriter, format string, cfg config.Proxy) *proxy.HTTPPro
 		}
 	}
 	return &proxy.HTTPProxy{
+		Stats:     wire.Stats(),
 		Config:    cfg,
 		Transport: cannedRT{200, "hello"},
 		Lookup: func(r *http.Request) *route.Target {
@@ -641,6 +643,7 @@ func TestC20ProxyLogging(t *testing.T) {
 			tr = errRT{errors.New("boom")}
 		}
 		p := &proxy.HTTPProxy{
+			Stats:     wire.Stats(),
 			Transport: tr,
 			Lookup: func(r *http.Request) *route.Target {
 				return &route.Target{Service: "svc", URL: &url.URL{Scheme: "http", Host: upstream, Path: "/"}}
@@ -744,6 +747,7 @@ func TestC20ProxyFinalStatus(t *testing.T) {
 		t.Fatal(err)
 	}
 	front := httptest.NewServer(&proxy.HTTPProxy{
+		Stats:     wire.Stats(),
 		Transport: &http.Transport{},
 		Lookup:    func(*http.Request) *route.Target { return &route.Target{Service: "svc", URL: upURL} },
 		Logger:    l,
@@ -919,6 +923,7 @@ func TestC20LogTargetFaults(t *testing.T) {
 			t.Fatal(err)
 		}
 		p := &proxy.HTTPProxy{
+			Stats:     wire.Stats(),
 			Transport: cannedRT{200, "hello"},
 			Lookup: func(r *http.Request) *route.Target {
 				return &route.Target{Service: "svc", URL: &url.URL{Scheme: "http", Host: "backend", Path: "/"}}
